@@ -1,4 +1,4 @@
-import ExprModel.Proofs.WfFrag
+import ExprModel.Proofs.BcBoundary
 /-
 C05, part 9: what the static checker's verdict means, stated without the checker; the exactness of a patched
 jump below 64 KiB and its failure above.
@@ -110,7 +110,7 @@ theorem wfStatic_sound (bytes : List Nat) (consts : Array Val) (h : wfStatic byt
     obtain ⟨⟨ha, hj⟩, hn⟩ := h
     refine ⟨is, henc, ha, ?_, hn⟩
     intro pre i post hsplit
-    have hji : jumpOk (boundary is) (0 + codeSize pre) i = true := by
+    have hji : jumpOk (instrBoundary is) (0 + codeSize pre) i = true := by
       have := hj; rw [hsplit] at this ⊢
       exact jumpsOk_at (by simpa using this)
     simp only [Nat.zero_add] at hji
